@@ -688,3 +688,71 @@ Definition check_decode (t : top) (buf : list Z) (od : odec) : bool :=
   | DFuel, OHang => true
   | _, _ => false
   end.
+
+(* ------------------------------------------------------------------ MetadataSchema() *)
+(* What the constructor does with a struct schema of the representable grammar
+   (MetadataSchema.__init__ 779-818, StructCodec.__init__ 657-665, the three extra validators
+   195-290).  The extra validators are reached only for the top-level object and its direct
+   properties: the copy of the meta-schema under definitions/root (line 71) is taken before
+   "$schema" is renamed (line 78), so jsonschema evaluates every nested node with the plain
+   Draft7Validator, which has no such hooks.
+     CSchemaErr = MetadataSchemaValidationError, CKeyErr = KeyError from make_encode/make_decode
+     (sub_schema["binaryFormat"] at closure-construction time). *)
+Inductive cres := CAccept | CSchemaErr | CKeyErr.
+
+Definition cres_eqb (a b : cres) : bool :=
+  match a, b with CAccept, CAccept | CSchemaErr, CSchemaErr | CKeyErr, CKeyErr => true | _, _ => false end.
+
+Definition leaf_needs_format (s : schema) : bool :=
+  match s with SLeaf TNull _ _ => false | SLeaf _ None _ => true | _ => false end.
+
+Definition neg_length (s : schema) : bool :=
+  match s with SArr (AFixed n) _ => n <? 0 | _ => false end.
+
+(* some node (anywhere) is a non-null leaf without binaryFormat *)
+Fixpoint missing_format (s : schema) : bool :=
+  match s with
+  | SLeaf _ _ _ => leaf_needs_format s
+  | SArr _ it => missing_format it
+  | SObj _ ps => existsb (fun p : prop => missing_format (snd p)) ps
+  end.
+
+Definition construct (t : top) : cres :=
+  match t_schema t with
+  | SObj req ps =>
+      let req' := match req with
+                  | Some r => r
+                  | None => map pkey (filter (fun p : prop =>
+                              match p_default (snd (fst p)) with None => true | Some _ => false end) ps)
+                  end in
+      if existsb (fun p : prop => leaf_needs_format (snd p)) ps then CSchemaErr          (* binary_format_validator *)
+      else if existsb (fun p : prop => neg_length (snd p)) ps then CSchemaErr            (* array_length_validator *)
+      else if existsb (fun p : prop => negb (key_in (pkey p) req') &&
+                         match p_default (snd (fst p)) with None => true | Some _ => false end) ps
+           then CSchemaErr                                                               (* required_validator *)
+      else if missing_format (t_schema t) then CKeyErr
+      else CAccept
+  | _ => CSchemaErr          (* top-level "type" must be object / [object, null] *)
+  end.
+
+(* ------------------------------------------------------------------ JSON codec *)
+(* JSONCodec.decode (168-178): result = {} for empty bytes else json.loads(bytes); a dict gets
+   dict(self.defaults, **result): the defaults' keys first (schema order), overridden by the
+   row's values, then the row's remaining keys in their order.  json.loads is a parameter. *)
+
+Definition json_fill (defaults kv : list (key * value)) : list (key * value) :=
+  map (fun e : key * value =>
+         (fst e, match lookup (fst e) kv with Some x => x | None => snd e end)) defaults
+  ++ filter (fun e : key * value =>
+               match lookup (fst e) defaults with Some _ => false | None => true end) kv.
+
+Definition json_decode (json_loads : list Z -> option value) (defaults : list (key * value))
+           (bytes : list Z) : option value :=
+  match bytes with
+  | [] => Some (VObj (json_fill defaults []))
+  | _ => match json_loads bytes with
+         | Some (VObj kv) => Some (VObj (json_fill defaults kv))
+         | Some v => Some v
+         | None => None
+         end
+  end.
